@@ -515,13 +515,18 @@ def run(case):
       nlines = text.count('\n') + 1
       plans = [('read_raises', i) for i in range(min(nlines + 1, 12))]
       plans += [('open_raises', 'eacces'), ('bytes_lines', True)]
+      # the read may also be interrupted by something that is not an Exception
+      plans += [('read_interrupts', i) for i in range(min(nlines + 1, 5))]
       for fk, arg in plans:
         world.reset()
         fs, texts = _setup(case, case['files'], {fname: {fk: arg}})
         exc = None
+        depth_io = len(getattr(world.config, '_PARSE_CONTEXTS', []))
         try:
           _parse(case, fs, texts)
         except Exception as e:  # pylint: disable=broad-except
+          exc = e
+        except vfs.Interrupt as e:
           exc = e
         cnt['io_points'] += 1
         for kk, n in fs.fired_counts.items():
@@ -544,8 +549,15 @@ def run(case):
           if not isinstance(exc, OSError):
             v('C16.io_error_class', [fk, type(exc).__name__ if exc else 'none'],
               '%s on %s surfaced as %r' % (fk, fname, exc))
+        if fk == 'read_interrupts' and not isinstance(exc, vfs.Interrupt):
+          v('C16.io_error_class', [fk, type(exc).__name__ if exc else 'none'],
+            '%s on %s surfaced as %r' % (fk, fname, exc))
         if gin.current_scope() != [] or gin.config_is_locked():
           v('C16.state_restored', ['io'], 'scope/lock changed after %s' % fk)
+        if len(getattr(world.config, '_PARSE_CONTEXTS', [])) != depth_io:
+          v('C16.state_restored', ['io', 'parse-contexts'],
+            'parse-context stack depth changed after %s(%r) on %s' %
+            (fk, arg, fname))
 
   lg.add('viol', sorted(repr(x['sig']) for x in viol))
   # one violation per signature
